@@ -8,17 +8,25 @@
 package main
 
 import (
+	"flag"
 	"fmt"
 	"math/rand"
 	"os"
 	"path/filepath"
+	"strconv"
 	"strings"
 
 	"verif/harness/internal/hx"
 )
 
 func main() {
+	worker := flag.Bool("gp-worker", false, "internal: execute cases from stdin")
+	cli := flag.String("gp-cli", "", "internal: gogenproto CLI already built")
 	f := hx.ParseFlags()
+	if *worker {
+		workerMain(*cli)
+		return
+	}
 	if f.Prop != "C20" {
 		fmt.Fprintln(os.Stderr, "h-gogenproto: unknown property", f.Prop)
 		os.Exit(2)
@@ -35,20 +43,33 @@ func main() {
 const rule = "random directory trees below a scratch Go module (input dir at /T, /T/in or /T/svc/api; depth <=3, <=12 non-Go files: .proto with/without `option go_package`, look-alikes such as x.proto.txt, .protox, A.PROTO, a directory named like a proto; a Go file in every directory), 0-2 include dirs (siblings, sometimes nested in / parent of / equal to the input dir) spelled relative or absolute, with or without =prefix; per tree all 8 settings of recurse/vt-proto/grpc, each with a random working directory inside the module, a random spelling of the input dir (., rel, ./rel, rel/, ../rel, absolute, absolute with trailing slash) and a random entry point (gen.Generate.Run in-process, CLI with -input-dir, CLI with the PWD default). Out-of-domain stream (drift only): odd go_package spellings, symlinked protos, missing dirs, `=` or spaces in names, unclean/empty prefixes. non-trivial: >=2 .proto files, >=1 of them without go_package, and >=1 sub-directory or include dir; distinct by request lines"
 
 func runC20(f *hx.Flags, impl *gpImpl) {
-	r := hx.NewRunner(f, "h-gogenproto", impl, rule)
+	memo := &memoImpl{inner: impl, memo: map[string]string{}}
+	r := hx.NewRunner(f, "h-gogenproto", memo, rule)
 	r.KeyOf = keyOf
 	if r.HandleReplay() {
 		return
 	}
 	r.RunCorpus()
-	n := r.N(110)
+	n := r.N(120)
 	if f.Tier == "thorough" {
-		n = r.N(1500)
+		n = r.N(2400)
 	}
-	for i := 0; i < n; i++ {
-		domain := r.Rng.Intn(8) != 0
-		r.Add(genCase(r.Rng, domain))
-		if i%25 == 24 {
+	cases := make([]hx.Case, n)
+	for i := range cases {
+		cases[i] = genCase(r.Rng, r.Rng.Intn(8) != 0)
+	}
+	workers := 4
+	if w, err := strconv.Atoi(os.Getenv("VERIF_WORKERS")); err == nil && w > 0 {
+		workers = w
+	}
+	if err := precompute(memo, cases, workers); err != nil {
+		// the answers that are missing are computed in-process below; a CLI that does not build shows up there
+		r.Res.Notes["precompute"] = err.Error()
+	}
+	r.Res.Extra["worker_processes"] = workers
+	for i, c := range cases {
+		r.Add(c)
+		if i%50 == 49 {
 			r.Flush()
 		}
 	}
